@@ -19,8 +19,50 @@ import (
 
 // nonNegative: the integer value is provably >= 0 by its construction (constants, len/cap, sums and products of such,
 // unsigned values widened, joins of such).
+// callSitesOf is set by checkArgPanics for the duration of one run: the static call sites of a function among the functions
+// being examined (a capacity hint computed by the caller and handed down as a parameter).
+var callSitesOf func(f *ssa.Function) []*ssa.Call
+
+var nonNegAssumed = map[*ssa.Phi]bool{}
+
 func nonNegative(v ssa.Value, depth int) bool {
-	if depth > 8 {
+	if depth > 14 {
+		return false
+	}
+	switch x := v.(type) {
+	case *ssa.Parameter:
+		f := x.Parent()
+		if callSitesOf == nil || f == nil {
+			return false
+		}
+		idx := -1
+		for i, q := range f.Params {
+			if q == x {
+				idx = i
+			}
+		}
+		sites := callSitesOf(f)
+		if idx < 0 || len(sites) == 0 {
+			return false
+		}
+		for _, c := range sites {
+			if idx >= len(c.Call.Args) || !nonNegative(c.Call.Args[idx], depth+1) {
+				return false
+			}
+		}
+		return true
+	case *ssa.Extract:
+		if c, ok := x.Tuple.(*ssa.Call); ok {
+			if h := c.Call.StaticCallee(); h != nil && len(h.Blocks) > 0 && h.Pkg != nil && strings.HasPrefix(h.Pkg.Pkg.Path(), load.Module) {
+				for _, ret := range flow.Returns(h) {
+					rs := flow.RetResults(ret)
+					if x.Index >= len(rs) || !nonNegative(rs[x.Index], depth+1) {
+						return false
+					}
+				}
+				return true
+			}
+		}
 		return false
 	}
 	if k, ok := flow.ConstInt(v); ok {
@@ -29,6 +71,14 @@ func nonNegative(v ssa.Value, depth int) bool {
 	switch x := v.(type) {
 	case *ssa.Call:
 		if bi, ok := x.Call.Value.(*ssa.Builtin); ok && (bi.Name() == "len" || bi.Name() == "cap" || bi.Name() == "copy") {
+			return true
+		}
+		if h := x.Call.StaticCallee(); h != nil && len(h.Blocks) > 0 && h.Pkg != nil && strings.HasPrefix(h.Pkg.Pkg.Path(), load.Module) && h.Signature.Results().Len() == 1 {
+			for _, ret := range flow.Returns(h) {
+				if !nonNegative(flow.RetResults(ret)[0], depth+1) {
+					return false
+				}
+			}
 			return true
 		}
 		if bi, ok := x.Call.Value.(*ssa.Builtin); ok && (bi.Name() == "min" || bi.Name() == "max") {
@@ -53,6 +103,13 @@ func nonNegative(v ssa.Value, depth int) bool {
 			return nonNegative(x.X, depth+1) && nonNegative(x.Y, depth+1)
 		}
 	case *ssa.Phi:
+		// an accumulator (`n += len(x)` in a loop): non-negative if it starts non-negative and every step keeps it so -
+		// the phi itself is assumed while its edges are examined (induction over the iterations)
+		if nonNegAssumed[x] {
+			return true
+		}
+		nonNegAssumed[x] = true
+		defer delete(nonNegAssumed, x)
 		for _, ed := range x.Edges {
 			if ed == v {
 				continue
@@ -81,6 +138,18 @@ func nonNegative(v ssa.Value, depth int) bool {
 func checkArgPanics(e *Env, p *load.Program, fns []*ssa.Function, rule string, skip func(*ssa.Function) bool, withDivision bool) {
 	r := e.R
 	n := 0
+	sites := map[*ssa.Function][]*ssa.Call{}
+	for _, fn := range fns {
+		for _, ci := range flow.Calls(fn) {
+			if c, ok := ci.(*ssa.Call); ok {
+				if h := c.Call.StaticCallee(); h != nil {
+					sites[h] = append(sites[h], c)
+				}
+			}
+		}
+	}
+	callSitesOf = func(f *ssa.Function) []*ssa.Call { return sites[f] }
+	defer func() { callSitesOf = nil }()
 	for _, fn := range fns {
 		if skip != nil && skip(fn) {
 			continue
